@@ -100,6 +100,8 @@ impl RouterProxy {
         comm.wakeup_sender
             .send(())
             .map(|_| {
+                #[cfg(ipc_channel_verif)]
+                crate::verif::point("router.shutdown.woke", &[]);
                 comm.msg_sender
                     .send(RouterMsg::Shutdown(ack_sender))
                     .unwrap();
